@@ -130,6 +130,8 @@ type interpreter struct {
 	schedQ       int
 	extCache     map[*ssa.Function]externalFn
 	choices      map[string]string
+	onces        map[*value]*onceState
+	nextChanID   int
 	schedCache   map[string]bool
 	schedHits    int
 	reflectTable map[string]externalFn
@@ -357,6 +359,7 @@ func (i *interpreter) runPath(fn *ssa.Function, prefix []int) (res *PathResult) 
 	i.locs = map[string]*location{}
 	i.mutexes = map[*value]*mutexState{}
 	i.wgs = map[*value]*wgState{}
+	i.onces = nil
 	i.counts = map[string]int{}
 	i.choices = map[string]string{}
 	i.trace = nil
